@@ -3,9 +3,10 @@ ID = "C25"
 FAMILY = "relay"
 RULE = ("the real RelayServer on the real EventLoop (127.0.0.1, ephemeral port), 2..7 TCP clients and three peer ids (lower and "
         "upper case spellings): histories of 5..40 client actions -- connect, REGISTER (valid, malformed, repeated, repeated "
-        "while a connector has claimed the peer, the same id from two clients), CONNECT (to registered, unregistered, claimed, "
+        "while a connector has claimed the peer, the same id from two clients), CONNECT (to registered, unregistered, claimed -- "
+        "also under another spelling of the id --, "
         "own id, malformed), the 32 identity bytes (whole, split, with data appended), data (1..200 bytes, sometimes 5000 or "
-        "70000), data before the bridge exists, garbage and partial lines, CRLF, PONG, disconnects at every stage -- each "
+        "70000; and 1 .. 2.5 MB sent while the partner does not read, which then reads everything), data before the bridge exists, garbage and partial lines, CRLF, PONG, disconnects at every stage -- each "
         "handled completely by EventLoop::run before the next.  Every data byte carries its sender and a running counter. "
         "Read back after every action: the bytes that arrived at each client, whether the server still holds its session, the "
         "number of sessions and registry entries.  Oracle (independent of the model, from the byte streams alone): a client "
@@ -17,7 +18,7 @@ RULE = ("the real RelayServer on the real EventLoop (127.0.0.1, ephemeral port),
         "distinct = distinct outputs")
 ASSUMPTIONS = ["one client action is handled completely before the next (the harness stops every EventLoop::run batch): schedules "
                "in which the events of two clients fall into one epoll batch are not enumerated",
-               "back-pressure (a client that does not read) is not exercised: the harness drains every client after every action",
+               "back-pressure: a partner that does not read while up to 3 MiB are sent, then reads everything (digest compared); a partner that never reads again is not exercised",
                "TCP on loopback delivers in order (the property is about the relay, not about TCP)"]
 TRUSTED = ["extraction: ExtrOcamlBasic only", "harness/impl_relay.cpp (#define private public around the two relay headers; a pipe "
            "watcher that stops each EventLoop::run batch)"]
@@ -71,7 +72,7 @@ def generate(rng, tier):
     for ci in range(n):
         g = Gen(rng)
         eol = "\r\n" if rng.random() < 0.15 else "\n"
-        kind = rng.choice(["random", "random", "random", "reregister", "duplicate", "leave-early", "big"])
+        kind = rng.choice(["random", "random", "random", "reregister", "duplicate", "leave-early", "big", "double-claim"])
         if kind == "reregister":
             # A registers, B claims A, A registers again (same or another id), C connects to that id, identities, data, leaves
             a, b = g.connect(), g.connect()
@@ -95,6 +96,30 @@ def generate(rng, tier):
                     y = rng.choice([a, b, c])
                     if g.state[y] != "closed":
                         g.send(y, g.data(y, rng.choice([1, 32, 40])))
+        elif kind == "double-claim":
+            # two connectors try to claim one registered peer, spelling its id differently (lower / upper / mixed case); then the
+            # parties leave or send their identities in some order
+            a, b = g.connect(), g.connect()
+            h = rng.choice(IDS)
+
+            def sp():
+                r = rng.random()
+                return h if r < 0.35 else (h.upper() if r < 0.7 else "".join(ch.upper() if rng.random() < 0.5 else ch for ch in h))
+            g.send(a, f"REGISTER {sp()}{eol}")
+            g.send(b, f"CONNECT {IDS[(IDS.index(h) + 1) % 3]} {sp()}{eol}")
+            c = g.connect()
+            g.send(c, f"CONNECT {IDS[(IDS.index(h) + 2) % 3]} {sp()}{eol}")
+            steps = [("id", b), ("id", c), ("leave", a), ("leave", b), ("leave", c), ("data", a), ("data", b), ("data", c)]
+            rng.shuffle(steps)
+            for what, x in steps[:rng.randrange(2, 8)]:
+                if g.state[x] == "closed":
+                    continue
+                if what == "id":
+                    g.send(x, g.data(x, rng.choice([32, 32, 40])))
+                elif what == "data":
+                    g.send(x, g.data(x, rng.randrange(1, 40)))
+                else:
+                    g.close(x)
         elif kind == "duplicate":
             a, a2, b = g.connect(), g.connect(), g.connect()
             h = rng.choice(IDS)
@@ -132,8 +157,17 @@ def generate(rng, tier):
             h = rng.choice(IDS)
             g.send(a, f"REGISTER {h}{eol}"); g.send(b, f"CONNECT {IDS[(IDS.index(h) + 1) % 3]} {h}{eol}")
             g.ops.append([1, b] + lp(g.data(b, 32 + rng.choice([0, 5000]))))
+            heavy = rng.random() < 0.4
             for _ in range(rng.randrange(1, 4)):
-                x = rng.choice([a, b]); g.ops.append([1, x] + lp(g.data(x, rng.choice([4096, 4097, 5000, 70000]))))
+                x = rng.choice([a, b])
+                if rng.random() < 0.35:
+                    # the partner does not read while x sends; it reads everything afterwards (one heavy transfer per history at most)
+                    g.ops.append([3, x, (3145728 if tier == "thorough" else 1300000) if heavy else rng.choice([1, 8192, 100000]), rng.randrange(128)])
+                    heavy = False
+                else:
+                    g.ops.append([1, x] + lp(g.data(x, rng.choice([4096, 4097, 5000, 70000]))))
+            if rng.random() < 0.3:
+                g.ops.append([3, rng.choice([a, b]), 70000, 5])
             g.close(rng.choice([a, b]))
         else:
             for _ in range(rng.randrange(2, 5)):
@@ -164,12 +198,23 @@ def generate(rng, tier):
     return cases
 
 
+def bulk_digest(n, seed):
+    count = 0; total = 0
+    for k in range(n):
+        count += 1
+        total = (total + count * (128 + (seed + 7 * k) % 128)) & 0xFFFFFFFF
+    return bytes([(count >> 24) & 255, (count >> 16) & 255, (count >> 8) & 255, count & 255,
+                  (total >> 24) & 255, (total >> 16) & 255, (total >> 8) & 255, total & 255])
+
+
 def parse_ops(ints):
     ops = []; p = 0
     while p < len(ints):
         c = ints[p]
         if c == 0:
             ops.append(("connect",)); p += 1
+        elif c == 3:
+            ops.append(("bulk", ints[p + 1], ints[p + 2], ints[p + 3])); p += 4
         elif c == 1:
             i, ln = ints[p + 1], ints[p + 2]; ops.append(("send", i, bytes(ints[p + 3:p + 3 + ln]))); p += 3 + ln
         else:
@@ -230,6 +275,19 @@ def judge(case, impl, model):
                 sent_all[i] += b
         elif op[0] == "close" and op[1] < n:
             closed_by_client[op[1]] = True
+        if op[0] == "bulk":
+            # under back-pressure: exactly one client (the sender's partner) reports the digest of all n bytes, nobody else anything
+            got = [(c, b) for c, (b, _) in enumerate(cl) if b]
+            if got:
+                carried = True
+                if len(got) != 1 or got[0][0] == op[1] or got[0][1] != bulk_digest(op[2], op[3]):
+                    return bad("bytes-lost-or-altered-under-back-pressure")
+                c = got[0][0]
+                if (relay_from[c] is not None and relay_from[c] != op[1]) or (relay_from[op[1]] is not None and relay_from[op[1]] != c):
+                    return bad("bulk-bytes-reached-a-client-that-is-not-the-partner")
+            if hung:
+                return {"fail": "C25|server-hung", "corr": corr}
+            continue
         for c, (b, is_open) in enumerate(cl):
             recv[c] += b
             text = bytes(x for x in b if x < 0x80)
